@@ -24,6 +24,7 @@ type c06Writer struct {
 	hdrCalls int
 	log      *[]Sx
 	accept   int // bytes accepted by the next Write (-1: all)
+	flushes  int // Flush calls that reached THIS writer
 }
 
 var errC06Write = errors.New("c06: writer rejected bytes")
@@ -52,10 +53,13 @@ func (w *c06Writer) Write(b []byte) (int, error) {
 	return k, err
 }
 func (w *c06Writer) Flush() {
+	w.flushes++
 	if w.status < 0 {
 		w.status = 200
 	}
 }
+
+var c06Prev echo.Context
 
 func genC06(rng *rand.Rand, n int, emit func(Case), dist map[string]int) {
 	e := echo.New()
@@ -67,10 +71,17 @@ func genC06(rng *rand.Rand, n int, emit func(Case), dist map[string]int) {
 		req := httptest.NewRequest(http.MethodGet, "/", nil)
 		c := e.NewContext(req, w)
 		s0 := 0
-		if rng.Intn(3) != 0 {
+		if c06Prev != nil && rng.Intn(2) == 0 {
+			// the context (and its Response) of the previous program, recycled for a new writer the way ServeHTTP does
+			c = c06Prev
+			c.Reset(req, w)
+			s0 = 200
+			dist["recycled_response"]++
+		} else if rng.Intn(3) != 0 {
 			c.Reset(req, w) // what ServeHTTP does with a pooled context: Status = 200
 			s0 = 200
 		}
+		c06Prev = c
 		resp := c.Response()
 		nops := 1 + rng.Intn(12)
 		var ops, states []Sx
@@ -83,7 +94,7 @@ func genC06(rng *rand.Rand, n int, emit func(Case), dist map[string]int) {
 		hookID := 0
 		flushFirst := rng.Intn(4) == 0
 		for i := 0; i < nops; i++ {
-			kind := rng.Intn(12)
+			kind := rng.Intn(13)
 			if i == 0 && flushFirst {
 				kind = 2
 			}
@@ -126,7 +137,11 @@ func genC06(rng *rand.Rand, n int, emit func(Case), dist map[string]int) {
 				ops = append(ops, L(I(1), I(bodyK(size))))
 				human = append(human, fmt.Sprintf("Write(%d bytes, writer accepts %d)", size, acc))
 			case 2:
+				fl := w.flushes
 				resp.Flush()
+				if w.flushes != fl+1 {
+					ok, why = false, fmt.Sprintf("op %d: Flush did not reach the response's current writer (%d flushes seen by it)", i, w.flushes-fl)
+				}
 				ops = append(ops, L(I(2)))
 				human = append(human, "Flush")
 				if !wasCommitted {
@@ -191,6 +206,20 @@ func genC06(rng *rand.Rand, n int, emit func(Case), dist map[string]int) {
 				c.NoContent(code)
 				ops = append(ops, L(I(7), I(code)))
 				human = append(human, fmt.Sprintf("NoContent(%d)", code))
+				if wasCommitted {
+					nontriv = true
+				}
+			case 12:
+				// a net/http handler adapted with echo.WrapHandler: what it writes goes through the same bookkeeping
+				w.accept = acc
+				echo.WrapHandler(http.HandlerFunc(func(hw http.ResponseWriter, _ *http.Request) {
+					hw.WriteHeader(code)
+					// (state between the two steps of this one operation)
+					states = append(states, L(I(resp.Status), I64(resp.Size), B(resp.Committed), I(w.status), I(w.nbytes), I(w.hdrCalls)))
+					hw.Write(make([]byte, size))
+				}))(c)
+				ops = append(ops, L(I(0), I(code)), L(I(1), I(bodyK(size))))
+				human = append(human, fmt.Sprintf("WrapHandler{WriteHeader(%d)", code), fmt.Sprintf("Write(%d bytes, writer accepts %d)}", size, acc))
 				if wasCommitted {
 					nontriv = true
 				}
